@@ -99,3 +99,17 @@ Example gen_should_fire_example :
   gen_shouldUpdateAlertStateToFiring 1 3 (hist_read (3 / 1 - 1) [HEval Firing; HConfig; HEval Pending; HEval Normal]) (zcode Pending) = true
   /\ should_fire 3 1 [HEval Firing; HConfig; HEval Pending; HEval Normal] Pending = true.
 Proof. split; vm_compute; reflexivity. Qed.
+
+(* shouldSendNotification: the notification row is read by processGetAlertNotification (its LastAlertState is an
+   input of the translated function), the two time gates are computed by isCooldownOver / isSilenceMinutesOver
+   (their results are inputs; the model's gate_over is their meaning, compared on the real code by ./check C20) *)
+Theorem gen_shouldSendNotification_is_model : forall (cur : astate) (nf : notif) (silence now : Z),
+  gen_shouldSendNotification (zcode (n_last_state nf))
+      (gate_over (n_cooldown nf) (n_last_sent nf) now) (gate_over silence (n_last_sent nf) now) (zcode cur)
+  = should_send cur nf silence now.
+Proof.
+  intros cur nf silence now. unfold gen_shouldSendNotification, should_send.
+  destruct cur; destruct (n_last_state nf);
+  destruct (gate_over (n_cooldown nf) (n_last_sent nf) now); destruct (gate_over silence (n_last_sent nf) now); reflexivity.
+Qed.
+Print Assumptions gen_shouldSendNotification_is_model.
